@@ -5,7 +5,7 @@
 //! which bytes and reports that as the symbol (`sym`) the Coq model works with.
 use ant_evm::{EncodedPeerId, PaymentQuote, ProofOfPayment, QuotingMetrics, RewardsAddress};
 use ant_networking::verif_hooks::{cmd as hooks, LocalSwarmCmd};
-use ant_networking::{Network, NetworkBuilder};
+use ant_networking::{Network, NetworkBuilder, NodeIssue};
 use ant_node::verif_hooks_quote as duty;
 use ant_protocol::{storage::ChunkAddress, NetworkAddress};
 use libp2p::identity::{Keypair, PublicKey};
@@ -185,6 +185,58 @@ fn run_history(case: &Value) -> Value {
     })
 }
 
+/// `driver`: like `history`, but nothing is cleared: quotes (QuoteVerification), unrelated issues
+/// (RecordNodeIssue) and the passing of time (the guarded age_node_issues hook) are interleaved on one
+/// client-mode SwarmDriver through the real handle_local_cmd; after each step the peer's issue list,
+/// its is_bad flag and its stored reference quote are read.
+fn run_driver(case: &Value) -> Value {
+    let rt = tokio::runtime::Builder::new_current_thread().enable_all().build().expect("runtime");
+    rt.block_on(async {
+        let (_net, _events, mut driver) = NetworkBuilder::new(Keypair::ed25519_from_bytes([0xEE; 32]).unwrap(), true)
+            .build_client()
+            .expect("client-mode driver");
+        let nkeys = case.get("nkeys").and_then(|n| n.as_u64()).unwrap_or(6);
+        let now = SystemTime::now();
+        let mut steps = vec![];
+        for st in case["steps"].as_array().unwrap() {
+            if let Some(secs) = st.get("age").and_then(|a| a.as_u64()) {
+                hooks::age_node_issues(&mut driver, secs);
+                steps.push(json!({"aged": secs}));
+                continue;
+            }
+            let (peer, res, ts, before, after) = if let Some(d) = st.get("quote") {
+                let peer = peer_of(&d["peer"]);
+                let (q, _desc) = quote_of(&d["q"], now, nkeys);
+                let ts = q.timestamp;
+                let before = SystemTime::now();
+                let res = hooks::handle_local_cmd(&mut driver, LocalSwarmCmd::QuoteVerification { quotes: vec![(peer, q)] });
+                (peer, res, Some(ts), before, SystemTime::now())
+            } else {
+                let d = &st["issue"];
+                let peer = peer_of(&d["peer"]);
+                let issue = match d["kind"].as_u64().unwrap() {
+                    0 => NodeIssue::ReplicationFailure,
+                    1 => NodeIssue::CloseNodesShunning,
+                    2 => NodeIssue::BadQuoting,
+                    _ => NodeIssue::FailedChunkProofCheck,
+                };
+                let before = SystemTime::now();
+                let res = hooks::handle_local_cmd(&mut driver, LocalSwarmCmd::RecordNodeIssue { peer_id: peer, issue });
+                (peer, res, None, before, SystemTime::now())
+            };
+            let (issues, is_bad) = hooks::node_issues(&driver, &peer);
+            let kinds: Vec<u64> = issues.iter().map(|i| match i.as_str() {
+                "ReplicationFailure" => 0, "CloseNodesShunning" => 1, "BadQuoting" => 2, _ => 3 }).collect();
+            let stored = hooks::quotes_history(&driver).into_iter().find(|(p, _)| *p == peer).map(|(_, q)| ts_json(q.timestamp));
+            steps.push(json!({"ok": res.is_ok(), "issues": kinds, "is_bad": is_bad, "ts": ts.map(ts_json), "stored_ts": stored,
+                              "now": ts_json(before), "now_after": ts_json(after)}));
+            // let the tasks spawned when a peer turns bad run
+            tokio::task::yield_now().await;
+        }
+        json!({"steps": steps})
+    })
+}
+
 /// a `Network` handle over plain channels owned by the harness (nothing is polled behind it)
 fn plain_network(self_key: u64) -> (Network, tokio::sync::mpsc::Receiver<LocalSwarmCmd>) {
     let (net_tx, _net_rx) = tokio::sync::mpsc::channel(8);
@@ -274,6 +326,9 @@ fn run_storecost(case: &Value) -> Value {
 fn run(case: &Value) -> Value {
     if case["op"].as_str() == Some("history") {
         return run_history(case);
+    }
+    if case["op"].as_str() == Some("driver") {
+        return run_driver(case);
     }
     if case["op"].as_str() == Some("duty") {
         return run_duty(case);
